@@ -190,5 +190,30 @@ func liveMode(runs, ticks int, maxRounds uint64, outDir string) {
 		st.Strategy[fmt.Sprint(meta["strategy"])]++
 	}
 	cw.Close(st)
-	fmt.Printf("c15: %d healed runs (%d with locked replicas at the heal, %d skipped: committed in the prefix); rounds needed after the heal %v; distinct locks at the heal %v\n", st.Cases, st.Distinct, st.Skipped, st.Rounds, st.Locked)
+	// synchronous rounds from injected aligned states (the setting of the theorem), compared with model/BftLive.v
+	cs := &sim.CaseWriter{OutDir: outDir, Name: "c15sync", Imports: "From V Require Import U64 Extracted Bft BftNet BftLive.", CaseType: "sync_case", MFun: "sync_mismatches", VFun: "sync_violations", PerShard: 60}
+	syncN, syncLocked, syncMulti, syncVoid := 0, 0, 0, 0
+	for syncN < 3*runs {
+		lit, meta, ok := syncCase(r.Fork())
+		if !ok {
+			syncVoid++
+			if syncVoid > 20*runs {
+				break
+			}
+			continue
+		}
+		cs.Add(lit, meta)
+		syncN++
+		st.Cases++
+		if meta["locked"].(int) > 0 {
+			syncLocked++
+			st.Distinct++
+		}
+		if meta["distinct_locks"].(int) > 1 {
+			syncMulti++
+		}
+	}
+	cs.Close(st)
+	fmt.Printf("c15: %d synchronous rounds from injected states (%d with locked replicas, %d with locks on different certificates, %d void)\n", syncN, syncLocked, syncMulti, syncVoid)
+	fmt.Printf("c15: %d healed runs (%d cases with locked replicas in all, %d skipped: committed in the prefix); rounds needed after the heal %v; distinct locks at the heal %v\n", st.Cases-syncN, st.Distinct, st.Skipped, st.Rounds, st.Locked)
 }
